@@ -118,8 +118,6 @@ class Machine(object):
         cfg = F.gen_cipher_cfg(rng, fam)
         if fam == "ChaCha20-Poly1305" and rng.random() < 0.3:
             cfg["nonce"][1] = 24
-        if cfg.get("alg") == "ARC2" and rng.random() < 0.7:
-            cfg["ekl"] = rng.choice([40, 41, 64, 127, 128, 1000, 1023])      # a cipher parameter that changes the permutation
         nl = cfg["nonce"][1] if cfg.get("nonce") else 0
         recs = []
         for i in range(rng.randrange(1, 6)):
@@ -169,8 +167,8 @@ class Machine(object):
             kw = {"nonce": nonce}
             if "mac_len" in cfg:
                 kw["mac_len"] = cfg["mac_len"]
-            if "ekl" in cfg:
-                kw["effective_keylen"] = cfg["ekl"]
+            if "effective_keylen" in cfg:
+                kw["effective_keylen"] = cfg["effective_keylen"]
             kw.update(extra)
             return m.new(F.cipher_key(cfg), getattr(m, "MODE_" + fam), **kw)
         return F.make_cipher(c)
@@ -264,7 +262,7 @@ class Machine(object):
         if fam == "CCM":
             return RA.ccm(m, key, nonce, a, pt, cfg["mac_len"])
         if fam == "EAX":
-            return RA.eax(m, key, nonce, a, pt, cfg["mac_len"], **({"effective_keylen": cfg["ekl"]} if "ekl" in cfg else {}))
+            return RA.eax(m, key, nonce, a, pt, cfg["mac_len"], **({"effective_keylen": cfg["effective_keylen"]} if "effective_keylen" in cfg else {}))
         if fam == "GCM":
             return RA.gcm(m, key, nonce, a, pt, cfg["mac_len"]) if size <= 20000 else None
         if fam == "OCB":
